@@ -70,10 +70,11 @@ func approxRenderLen(v VSpec) int {
 // digits.  A negative integral exponent yields 1 / a^|b| cut to 16 fraction digits: the result is small
 // unless a itself is a negative power of ten... so nothing is allowed for it beyond 10^16-sized quotients.
 func powResultSize(a, b decimal.Decimal) float64 {
-	if a.IsZero() || !b.Equal(b.Truncate(0)) {
+	if a.IsZero() {
 		return 0
 	}
-	n, _ := b.Float64()
+	// a non-integral power computes the whole part of the power first: the size is that of the whole power
+	n, _ := b.Truncate(0).Float64()
 	af, _ := a.Abs().Float64()
 	intDigits := 0.0
 	if af > 1 {
